@@ -81,7 +81,25 @@ func addCycle(g *G, L *Layout) {
 		files[0] = main
 		for i := 0; i < n; i++ {
 			nf := files[(i+1)%n]
-			L.Files[files[i]] = fmt.Sprintf("include:\n  - %s\nservices:\n  inode%d:\n    image: x\n", nf, i)
+			var inc string
+			switch g.n("inc-cycle-form", 6) {
+			case 0:
+				inc = fmt.Sprintf("  - %s\n", nf)
+			case 1:
+				inc = fmt.Sprintf("  - path: %s\n", nf)
+			case 2:
+				inc = fmt.Sprintf("  - path: [%s]\n    project_directory: %s\n", nf, path.Dir(nf))
+			case 3:
+				inc = fmt.Sprintf("  - path: %s\n    project_directory: %s\n", relPath(path.Dir(files[i]), nf), relPath(path.Dir(files[i]), path.Dir(nf)))
+			case 4:
+				// the cycle closes through an override file of the include entry, not through its first path
+				side := fmt.Sprintf("%s/icyc%d/side_f%d.yaml", root, i, i)
+				L.Files[side] = fmt.Sprintf("services:\n  side%d:\n    image: x\n", i)
+				inc = fmt.Sprintf("  - path: [%s, %s]\n", side, nf)
+			default:
+				inc = fmt.Sprintf("  - path:\n      - %s\n    project_directory: %s\n", nf, path.Dir(nf))
+			}
+			L.Files[files[i]] = fmt.Sprintf("include:\n%sservices:\n  inode%d:\n    image: x\n", inc, i)
 		}
 		L.Main = L.Main[:1]
 		L.Cycle = "include"
@@ -93,6 +111,12 @@ func addCycle(g *G, L *Layout) {
 			"x-l: &l [*l]\nservices:\n  a:\n    image: x\n",
 			"x-a: &a\n  b: &b\n    back: *a\nservices:\n  a:\n    image: x\n",
 			"services:\n  a:\n    image: x\n    environment: &e\n      - *e\n",
+			"services:\n  a:\n    image: x\n    command: &cmd [echo, *cmd]\n",
+			"x-hosts: &h\n  - name: one\n    peers: *h\nservices:\n  a:\n    image: x\n",
+			"x-a: &a\n  <<: *a\nservices:\n  a:\n    image: x\n",
+			"&root\n<<: *root\nservices:\n  a:\n    image: x\n",
+			"x-a: &a\n  k: v\n  <<: [*a]\nservices:\n  a:\n    image: x\n",
+			"x-a: &a\n  b: &b\n    <<: *a\nservices:\n  a:\n    image: x\n",
 		}
 		L.Files[main] = forms[g.n("alias-form", len(forms))]
 		L.Main = L.Main[:1]
@@ -458,13 +482,21 @@ func cycleTag(L *Layout) string {
 }
 
 func budgetClass(b string) string {
+	where := ""
+	if i := strings.Index(b, " in "); i > 0 {
+		where = " @ " + b[i+4:]
+		b = b[:i]
+	}
 	if i := strings.Index(b, ": "); i > 0 {
 		b = b[i+2:]
 	}
 	if i := strings.Index(b, "="); i > 0 {
 		b = b[:i]
 	}
-	return b
+	if strings.HasPrefix(b, "io-events") {
+		where = ""
+	}
+	return b + where
 }
 
 var numRe = regexp.MustCompile(`\d+`)
@@ -629,6 +661,7 @@ func c01Exec(c *Ctx, r *zsimrt.Run, sc *c01Scenario, class string, plan bool) {
 	c.Max("steps-per-load", int(base.Steps))
 	c.Max("map-ranges-per-load", int(base.KeysCalls))
 	c.Max("io-events-per-load", base.IOEvents)
+	c.Max("call-depth-per-load", base.MaxDepth)
 	if L.Cycle != "" {
 		c.Count("probe:cycle-"+strings.SplitN(L.Cycle, ":", 2)[0], 1)
 	}
